@@ -60,7 +60,8 @@ def pack_weights(intweights: torch.Tensor, bits: int) -> torch.Tensor:
             return t * (2**bits)
         return t << bits
 
-    it = min(values_per_item, (original_shape[0] // row_dim) + 1)
+    # (a Tensor without rows has nothing to pack)
+    it = min(values_per_item, (original_shape[0] // row_dim) + 1) if row_dim > 0 else 0
     for i in range(it):
         start = i * row_dim
         end = min(start + row_dim, original_shape[0])
